@@ -23,8 +23,14 @@ ORACLES = {
     'messaging-transport-failure': ('c04', 'messaging_battery', 'messaging_case', 60),
     'rx-adapter-session': ('c20', 'adapter_session_oracle', 'adapter_session', 10),
     'gated-responder-error': ('c08', 'gated_oracle', 'gated_case', 24),
+    'aiohttp-websocket': ('c12', 'websocket_oracle', 'websocket_case', 2),
+    'graphql-subscription': ('c09', 'graphql_oracle', 'graphql_case', 2),
     'endpoint-reads': ('c04', 'endpoint_reads_battery', 'kind', 100),
 }
+
+
+# oracles on a REAL asyncio loop (asyncio.run): run in a child process under a wall-clock limit
+ISOLATED = ('aiohttp-websocket', 'graphql-subscription')
 
 
 def _fn(name):
@@ -37,7 +43,11 @@ def run(corr, names):
     """run the named oracles, add their failures and their counts to the correspondence result"""
     for name in names:
         fn, key, n = _fn(name)
-        fails = fn()
+        from harness import epcheck, common
+        if name in ISOLATED:
+            fails = common.run_isolated(ORACLES[name][0], ORACLES[name][1])
+        else:
+            fails = epcheck.guarded(fn, 60, 'shared oracle ' + name)
         for f in fails:
             f.setdefault('battery', name)
         corr.oracle_failures.extend(fails)
@@ -55,10 +65,25 @@ def search(names):
     return out
 
 
+def common_run_isolated(module, func):
+    from harness import common
+    return common.run_isolated(module, func)
+
+
 def replay(case):
     """True / False if `case` is a failure record of a shared oracle (re-run it), None otherwise"""
-    name = (case or {}).get('battery')
+    case = case or {}
+    name = case.get('battery')
+    if name is None and str(case.get('guarded', '')).startswith('shared oracle '):
+        name = case['guarded'][len('shared oracle '):]
+    if case.get('isolated'):
+        return bool(common_run_isolated(*case['isolated']))
+    if case.get('guarded') == 'whole correspondence':
+        return True          # the run did not come back within its CPU budget: nothing smaller to replay
     if name not in ORACLES:
         return None
     fn, key, n = _fn(name)
-    return bool(fn())
+    from harness import epcheck, common
+    if name in ISOLATED:
+        return bool(common.run_isolated(ORACLES[name][0], ORACLES[name][1]))
+    return bool(epcheck.guarded(fn, 60, 'shared oracle ' + name))
